@@ -1389,4 +1389,25 @@ theorem evParseHost_labels (a : Bytes) (hd : a.head? ≠ some dot) :
 def litSlashes (pieces : List EvPiece) : Nat :=
   (pieces.map fun p => match p with | .lit s => s.count slash | _ => 0).sum
 
+/-! ### mod_userdir -/
+
+theorem userdirByte_ne {c : UInt8} (h : (isAlnum c || c == 45 || c == uscore || c == dot) = true) : c ≠ slash := by
+  have := byte_forall (fun c => !(isAlnum c || c == 45 || c == uscore || c == dot) || c != slash)
+    (by decide +kernel) c
+  simpa [h] using this
+
+/-- a user name mod_userdir accepts is one clean path segment -/
+theorem userdirNameOk_clean {u : Bytes} (h : userdirNameOk u = true) (hne : u ≠ []) : Clean u := by
+  unfold userdirNameOk at h
+  rw [Bool.and_eq_true] at h
+  obtain ⟨h1, h2⟩ := h
+  rw [List.all_eq_true] at h2
+  refine ⟨hne, ?_, ?_, ?_⟩
+  · intro e; subst e; simp [segDot, dot] at h1
+  · intro e; subst e; simp [segDotDot, dot] at h1
+  · intro hm
+    have := h2 _ hm
+    simp only [Bool.or_eq_true, decide_eq_true_eq] at this
+    exact userdirByte_ne (c := slash) (by simpa [Bool.or_eq_true] using this) rfl
+
 end LtVerif
